@@ -565,7 +565,7 @@ def x_cases(rng, tier):
         key = json.dumps([ms, dflt, v])
         if key not in seen:
             seen.add(key)
-            cases.append(x_case(rng, ms, dflt, v, 5 if quick else 23))
+            cases.append(x_case(rng, ms, dflt, v, 5))
 
     # (1) Unions with registered / restricted members, every order through the permutation sweep
     pool = [["opq", n] for n in OPQ] + X_MODELLED
@@ -575,7 +575,7 @@ def x_cases(rng, tier):
             if any(m[0] == "opq" for m in combo):
                 combos.append(list(combo))
     rng.shuffle(combos)
-    for combo in combos[: (45 if quick else len(combos))]:
+    for combo in combos[: (45 if quick else 200)]:
         ms = list(combo)
         rng.shuffle(ms)
         vals = X_VALUES if not quick else rng.sample(X_VALUES, 9) + [["int", str(BIG)], ["str", "abc"]]
@@ -610,6 +610,13 @@ EQ_CLASSES = [[["int", "1"], ["bool", True], ["float", "1.0"]], [["int", "0"], [
               [["int", "2"], ["float", "2.0"]]]
 
 
+def as_float(x):
+    try:
+        return float(x[1]) if x[0] in ("int", "float", "str") else (float(x[1]) if x[0] == "bool" else None)
+    except ValueError:
+        return None
+
+
 def set_cases(rng, tier):
     quick = tier == "quick"
     I, B, F, S = ["int"], ["bool"], ["float"], ["str"]
@@ -631,7 +638,7 @@ def set_cases(rng, tier):
             seqs.append([rng.choice(pool) for _ in range(rng.choice([1, 2, 3]))])
         for items in seqs:
             # the canonical order of a resulting set is fixed for ints and strs only: at most one other distinct result
-            if t == F and len({float(x[1]) for x in items if x[0] in ("int", "float")}) > 1:
+            if t == F and len({as_float(x) for x in items} - {None}) > 1:
                 continue
             w = rng.randrange(len(wrap)) if rng.random() < 0.35 else 0
             outer = rng.choice(["list", "tuple", "text"])
